@@ -187,26 +187,30 @@ func (st *poolState) startSvr(maxPool int) {
 		st.wcs = map[string]*poolWC{}
 		st.users = map[string]*poolUser{}
 		st.gates = map[string]string{}
-		verifhook.Set(func(point string, keys []string) {
-			if len(keys) < 2 {
-				return
-			}
-			st.gmu.Lock()
-			want := st.gates[keys[1]]
-			var s *poolSess
-			if want == point {
-				delete(st.gates, keys[1])
-				s = st.sess[keys[1]]
-			}
-			st.gmu.Unlock()
-			if s != nil {
-				close(s.isParked)
-				<-s.parked
-			}
-		})
+		peInstallHook() // poolHook below + the pe sessions' part (eng_pool_end.go)
 		return
 	}
 	panic(fmt.Sprint("cannot start frps: ", lastErr))
+}
+
+// the gates of the sessions on the real frps: hostname (= sid) -> point
+func poolHook(point string, keys []string) {
+	st := poolSt
+	if len(keys) < 2 || st.gates == nil {
+		return
+	}
+	st.gmu.Lock()
+	want := st.gates[keys[1]]
+	var s *poolSess
+	if want == point {
+		delete(st.gates, keys[1])
+		s = st.sess[keys[1]]
+	}
+	st.gmu.Unlock()
+	if s != nil {
+		close(s.isParked)
+		<-s.parked
+	}
 }
 
 func (st *poolState) connector(name string) (client.Connector, error) {
@@ -530,6 +534,9 @@ func poolExec(tok []string) string {
 	}
 	if strings.HasPrefix(tok[0], "sq") {
 		return poolGExec(st, tok)
+	}
+	if strings.HasPrefix(tok[0], "pe") {
+		return poolPeExec(tok)
 	}
 	if strings.HasPrefix(tok[0], "vl") || strings.HasPrefix(tok[0], "vp") || strings.HasPrefix(tok[0], "gp") {
 		return poolVlExec(tok)
@@ -1183,6 +1190,8 @@ type poolGen struct {
 	dead    map[string]bool // killed work connections (half dead or dead)
 	muxOf   map[string]string
 	maxPool int
+	npe     int // pool-teardown episodes (eng_pool_end.go)
+	npw     int
 }
 
 func (g *poolGen) op(s string) { g.emit(s); g.n++ }
@@ -1762,6 +1771,8 @@ func poolGenRun(rng *rand.Rand, n int, emit func(string)) {
 		if g.n < n && g.cycle%3 != 0 {
 			g.sendEpisode(rand.New(rand.NewSource(int64(g.cycle)*1000003 + int64(g.n)*7919 + int64(g.nw)*31 + int64(g.nu))))
 		}
+		// the end of the pool on the real Control (eng_pool_end.go), every cycle, again from a stream of its own
+		g.peEpisode(rand.New(rand.NewSource(int64(g.cycle)*7368787 + int64(g.n)*104729 + 11)))
 	}
 }
 
